@@ -157,7 +157,11 @@ def run_case(spec, lines, out):
         a1 = ages.reshape(ages.shape[0], -1)[:, 0] if ages.size else np.zeros(0)
         emit(f"sval {q} {c} {nums(vals)}", f"ok A {nums(a1)}")
     emit("sf", "ok " + nums(sf))
-    emit("pdf", "ok " + nums(model.pdf))
+    try:
+        emit("pdf", "ok " + nums(model.pdf))
+    except Exception:
+        emit("pdf", "err")
+        return
     shape = dims.shape
 
     def arr(tokens):
@@ -277,5 +281,10 @@ def run_case(spec, lines, out):
 def run(specs):
     lines, out = [], []
     for spec in specs:
-        run_case(spec, lines, out)
+        try:
+            run_case(spec, lines, out)
+        except Exception as e:  # noqa: BLE001
+            # the implementation raised where the harness did not expect it to: an observation, not a tool failure
+            lines.append("note case_ran_to_completion")
+            out.append(f"raised {type(e).__name__}")
     return lines, out
